@@ -19,9 +19,17 @@ import numpy as np
 import pandas as pd
 
 from .. import api
+from ..common import Driver, sx
 from ..kernels import selected_positions
 
 U = 2.0 ** -53
+BOUND_CACHE = {}
+DRV = None
+
+
+def fr(q):
+    q = Fraction(q)
+    return str(q.numerator) if q.denominator == 1 else f"{q.numerator}/{q.denominator}"
 
 
 def gen_keys(rng, n, allow_null=True):
@@ -93,7 +101,15 @@ def var_stream(res, rng, tier, GroupBy):
             want = float(v) if op == "var" else math.sqrt(float(v))
             mx = max(abs(float(x)) for x in xs)
             u = 2.0 ** -24 if dtype == "float32" else U        # float32 data are accumulated in float32
-            bound = 16 * k * u * mx * mx / max(1, k - ddof) + 1e-300
+            # the PROVED bound (Coq: Proofs/VarFloat.var_error, extracted var_bound): standard model of rounding with unit
+            # roundoff u, sums in any bracketing of height <= k + 1 (+1: integer sums are rounded once when converted)
+            ub = Fraction(u)
+            key = (str(ub), k, ddof)
+            if key not in BOUND_CACHE:
+                # evaluated at M = 1; var_bound(M) = M^2 * var_bound(1) is a theorem (C16_bound_is_proportional_to_squared_magnitude)
+                r = DRV.ask([sx(["var_bound", fr(ub), k, fr(Fraction(1, k)), fr(Fraction(1, k - ddof)), "1", k + 1, k + 1])])[0]
+                BOUND_CACHE[key] = float(Fraction(r)) * (1 + 1e-9)
+            bound = BOUND_CACHE[key] * mx * mx * (1 + 1e-9) + U * abs(float(v)) + 1e-300      # + conversion of the exact reference to float
             if op == "std":
                 # d(sqrt v) <= dv / (2 sqrt v); near v = 0 use sqrt of the bound
                 bound = math.sqrt(bound) if want * want <= bound else bound / (2 * want) + U * want
@@ -252,10 +268,12 @@ def composite_stream(res, rng, tier, GroupBy):
 
 
 def run(res, tier="quick", seed=0, widen=False):
+    global DRV
+    DRV = Driver()
     from groupby_lib import GroupBy
     rng = random.Random(seed * 37 + 16 + (1 if widen else 0))
     res.rule = ("var/std: seeded groups (1-14 rows, nulls, masks, float64/float32/int64, offsets to 1e8, magnitudes 1e-6..1e6, ddof 0/1) vs exact two-pass variance within "
-                "16*n*u*max|x|^2; median/quantile vs NumPy per group incl. masked-out groups and unsorted first appearance; apply with scalar / fixed-length / aligned functions "
+                "the PROVED rounding bound var_bound (Coq, extracted; ~ 3 n u max|x|^2 n/(n-ddof)); median/quantile vs NumPy per group incl. masked-out groups and unsorted first appearance; apply with scalar / fixed-length / aligned functions "
                 "vs per-group calls in row order; agg lists and frames vs individual calls; ratio vs sum/sum; single-key density vs shares adding up to 100; "
                 "non-trivial: every case; distinct = canonical case")
     var_stream(res, rng, tier, GroupBy)
